@@ -438,7 +438,15 @@ static void mode_bin(vf::Ctx& c)
 	count_size(c, n);
 	Scratch sc(c);
 	std::string path = sc.file("b.bin");
-	c.desc(vf::fmt("binary file of %zu bytes", n));
+	// one case in eight reaches the file through a symbolic link (relative target in the same directory)
+	bool viaLink = c.idx % 8 == 5;
+	if (viaLink) {
+		std::string target = sc.file("payload.bin");
+		std::string rel = target.substr(target.rfind('/') + 1);
+		if (symlink(rel.c_str(), path.c_str()) != 0) viaLink = false;
+		else c.count("bin.path-is-a-symbolic-link");
+	}
+	c.desc(vf::fmt("binary file of %zu bytes%s", n, viaLink ? " written and read through a symbolic link" : ""));
 	Bytes data = binary_content(c, n);
 	std::string how;
 	write_binary(c, path, data, how);
@@ -688,6 +696,11 @@ static void mode_lines(vf::Ctx& c)
 {
 	Scratch sc(c);
 	std::string path = sc.file("t.txt");
+	if (c.idx % 16 == 11) {   // the text file is reached through a symbolic link
+		std::string target = sc.file("t-target.txt");
+		std::string rel = target.substr(target.rfind('/') + 1);
+		if (symlink(rel.c_str(), path.c_str()) == 0) c.count("lines.path-is-a-symbolic-link");
+	}
 	TextStats st;
 	bool many = c.rng.chance(0.15);
 	Bytes text = gen_text(c, st, many ? 60 : 5, many);
@@ -1270,6 +1283,20 @@ static void so_close(vf::Ctx& c, File& f, SoState& s)
 	}
 }
 
+// the object is assigned a fresh File for the same path: whatever it had open is closed (flushed) first
+static void so_reassign(vf::Ctx& c, File& f, SoState& s)
+{
+	c.op("f = File(same path)");
+	bool was_writing = s.st == SO_WRITE;
+	f = File(S(s.path));
+	s.st = SO_CLOSED;
+	c.count(was_writing ? "op.reassign-same-path-while-writing" : "op.reassign-same-path");
+	if (was_writing) {
+		so_disk(c, s, "sameobj.disk-after-reassignment");
+		if (c.rng.chance(0.5)) so_size(c, f, s);
+	}
+}
+
 static void so_step(vf::Ctx& c, File& f, TextFile* tf, SoState& s)
 {
 	int r = c.rng.below(100);
@@ -1300,7 +1327,8 @@ static void so_step(vf::Ctx& c, File& f, TextFile* tf, SoState& s)
 			Bytes w = tf ? text_ops(c, *tf, 1) : file_ops(c, f, 1);
 			s.model += w;
 			so_wrote(c, s);
-		} else if (r < 85) so_close(c, f, s);
+		} else if (r < 75) so_close(c, f, s);
+		else if (r < 88) so_reassign(c, f, s);
 		else so_meta(c, f, s);
 	}
 }
